@@ -325,6 +325,26 @@ theorem readback_utc_before_1972 (y m d : Int) (f : ℚ) (h : Valid y m d) (hy :
   have hy' : ¬ y ≥ 1972 := by omega
   simp [get_date_deltasec, hy', peq_zero]
 
+/-- `get_last_leap_second()` for ANY table: a last entry at a whole year `Y` names 31 December of `Y − 1`, a last entry
+    at `Y + 1/2` names 30 June of `Y` (the day the leap second closes), with the table's last count -/
+theorem last_leap_second_any_table (Y v : Int) :
+    get_last_leap_second_of (Y : ℚ) v = (Y - 1, 12, 31, v) ∧
+    get_last_leap_second_of ((Y : ℚ) + 1 / 2) v = (Y, 6, 30, v) := by
+  unfold get_last_leap_second_of
+  have f1 : pfloor (Y : ℚ) = Y := by rw [pfloor_eq_floor, Int.floor_intCast]
+  have f2 : pfloor ((Y : ℚ) + 1 / 2) = Y := by
+    rw [pfloor_eq_floor, Int.floor_eq_iff]; constructor <;> norm_num
+  have m1 : pmod (Y : ℚ) 1.0 = 0 := by rw [pmod_one, Int.fract_intCast]
+  have m2 : pmod ((Y : ℚ) + 1 / 2) 1.0 = 1 / 2 := by
+    rw [pmod_one]; unfold Int.fract
+    have : ⌊(Y : ℚ) + 1 / 2⌋ = Y := by rw [Int.floor_eq_iff]; constructor <;> norm_num
+    rw [this]; ring
+  have p1 : peq (0 : ℚ) 0.0 = true := by decide +kernel
+  have p2 : peq (1 / 2 : ℚ) 0.0 = false := by decide +kernel
+  constructor
+  · simp only [f1, m1, p1, if_true]; norm_num
+  · simp only [f2, m2, p2, Bool.false_eq_true, if_false]; norm_num
+
 /-- the constructor refuses, with ValueError and whatever the kwargs, a time of day outside 0 ≤ h < 24, 0 ≤ min < 60,
     0 ≤ s < 60 — in particular the label 23:59:60 of a leap second itself cannot be entered -/
 theorem refuses_time_fields_out_of_range (y m : Int) (d h mi s : ℚ) (utc : Option Bool) (lsec : Option ℚ)
